@@ -5,13 +5,6 @@ FAMILIES = [
     {"name": "auth", "family": "auth", "group": "auth", "driver": "drv_auth", "n_quick": 12000, "n_thorough": 120000, "seeds_thorough": 4},
     {"name": "authtx", "family": "authtx", "group": "auth", "driver": "drv_auth", "n_quick": 2500, "n_thorough": 10000, "seeds_thorough": 3},
 ]
-import os as _os
-if _os.environ.get("VERIF_C08_MIXEDSPELLING"):
-    # opt-in reproducer of the observation recorded under UNPROVED: a role granted under one spelling of an address and
-    # removed under another (RemoveAccount accepted, nothing deleted, the account keeps the role); tag
-    # auth.admin.RemoveAccount.stillholds, replay known/C08-mixedspelling-replay.json.  Not part of the default run.
-    FAMILIES.append({"name": "auth-mixedspelling", "family": "auth", "group": "auth", "driver": "drv_auth", "n_quick": 700, "n_thorough": 700,
-                     "args": ["-replay", "mixedspelling"]})
 CHK_PREDS = ["c08."]
 RULE = ("auth (L1): the real handlers obtained from the app's MsgServiceRouter (x/admin, tokenregistry, clp, margin, ethbridge) on a cached context per message, written back only on success. "
         "Phase 1: all 28 non-table-changing privileged handlers x 14 signers (one per admin role, one with two roles, a second ADMIN, the oracle admin, "
@@ -21,9 +14,10 @@ RULE = ("auth (L1): the real handlers obtained from the app's MsgServiceRouter (
         "authtx (L2): the full app through BeginBlock/DeliverTx/EndBlock/Commit with signed zero-fee transactions, one per block: every privileged handler (29: MsgUpdateSwapFeeParams is "
         "subject to the 0.1-rowan ante floor and left to L1) direct and wrapped in authz.MsgExec by its role holder and by a stranger, plus spoofed (msg.Signer = a role holder, "
         "transaction signed by a stranger; directly and as MsgExec without grant); then the table evolving through AddAccount/RemoveAccount transactions. Hash over all stores but auth. "
-        "Spellings: bech32 is case-insensitive, so every account also has an all-upper-case spelling. A seed-dependent subset of the accounts without a set-up entry (always incl. #12) "
-        "is ALWAYS named in upper case in AddAccount/RemoveAccount payloads (one spelling per account); the Signer field (1 message in 5) and the other address-typed payload fields "
-        "(WhitelistedAddress, CethReceiverAccount, CosmosReceiver, Validator; 1 in 4) use the upper-case form; directed histories grant/use/remove/use for an upper- and a lower-case-named account. "
+        "Spellings: bech32 is case-insensitive, so every account also has an all-upper-case spelling. AddAccount/RemoveAccount name the account, independently per message, in lower case (5/8), "
+        "in upper case (2/8) or by a string that is no address (1/8) - so roles get granted under one spelling and removed under another; the Signer field (1 message in 5) and the other "
+        "address-typed payload fields (WhitelistedAddress, CethReceiverAccount, CosmosReceiver, Validator; 1 in 4) use the upper-case form; directed histories grant/use/remove/use in lower case, "
+        "in upper case, and grant-lower/remove-upper/use/remove-lower/use. "
         "After every accepted RemoveAccount the real IsAdminAccount is asked whether the decoded account still holds the role (chk c08.removed). "
         "non-trivial = distinct (handler, signer, payload) message line.")
 TRUSTED_BASE = [
@@ -39,11 +33,10 @@ TRUSTED_BASE = [
 ASSUMPTIONS = [
     "IsAdminAccount compares the stored address strings with AccAddress.String() (canonical lower case); valid bech32 spellings are single-case, so canonical = lower-cased",
     "the oracle admin account and the clp decommission whitelist are set only by genesis (no message changes them)",
+    "the canonical string of the account a spelling denotes (AccAddressFromBech32(..).String()) is an environment value supplied by the harness from cosmos-sdk's bech32 code",
 ]
 UNPROVED = [
-    "spellings: the x/admin table is keyed by the address STRING. The matrix names each account in one spelling per history; removal_immediate_spelled covers exactly that case. "
-    "A role granted under one spelling and removed under another is NOT removed although RemoveAccount succeeds (observation on the unchanged tree; opt-in reproducer "
-    "VERIF_C08_MIXEDSPELLING=1 bin/check C08); an upper-case grant is stored verbatim and never matches IsAdminAccount",
+    "entries put into the role table by genesis (not by a message) may be spelled non-canonically; they never authorise anyone and can no longer be removed by message (F24 repair rejects the spelling)",
     "that each real handler is an instance of the abstract 'statements; guard; body' model with the recorded statement kinds is established by the syntactic translator and "
     "exercised by the matrix (result class + whole-multistore hash), not proved from Go semantics",
     "bodies of the handlers after the guard (what an authorised message does) are not modelled here, except AddAccount/RemoveAccount on the role table",
